@@ -164,6 +164,24 @@ Section Generic.
       end.
   Proof. exact (eiterate_after_stops zero fold getr pre exec before after). Qed.
 
+  (* ---- the successors, by name: when the loop interrupts after computing the tasks [ready] from the
+     outputs of the tasks that completed (none of them asked for a rerun or was interrupted inside), every
+     one of those tasks is a pending input of the checkpoint, with the input computed for it; by the
+     after_stops_successors theorems the segment ends there, so none of them is submitted ---- *)
+  Theorem after_successors_pending : forall cs (gs1 : GS) (rs : list (N * @texec V SCP SINFO)) i (c : @checkpoint V CS GS SCP) cs2 ready,
+    decide zero fold getr before after cs gs1 rs = Interrupted i c ->
+    subcps rs = [] -> reruns rs = [] ->
+    calc fold getr cs (outs rs) = Ok (cs2, ready) ->
+    incl ready (cp_inputs c).
+  Proof. exact (decide_successors_pending zero fold getr before after). Qed.
+
+  Theorem after_successors_pending_eager : forall cs (gs1 : GS) (c : N * @texec V SCP SINFO) rest sched' i (cp : @checkpoint V CS GS SCP) cs2 ready,
+    edecide zero fold getr before after false cs gs1 c rest sched' = EStop (Interrupted i cp) ->
+    subcps [c] = [] -> reruns [c] = [] ->
+    calc fold getr cs (outs [c]) = Ok (cs2, ready) ->
+    incl ready (cp_inputs cp).
+  Proof. exact (edecide_successors_pending zero fold getr before after). Qed.
+
   (* ---- checkpoint_iff_interrupt for every call of the driven run (any segments) ---- *)
   Theorem checkpoint_iff_interrupt_driven : forall {B : Type} (ser : @checkpoint V CS GS SCP -> B) deser
       (fresh : ENV -> @outcome V CS GS SCP SINFO * list (@event V) * ENV)
@@ -281,6 +299,13 @@ Example before_needs_reported_interrupt_run_witness : exists co1 co2 e ev i c,
   (exists v, co_out co2 = ODone v) /\ co_written co2 = false.
 Proof. exact wd_chain_run. Qed.
 
+(* non-vacuity of [after_successors_pending]: the successor 3 of the interrupt-after node 2 is pending with
+   the input computed from the output of node 2, and only node 2 ran *)
+Example after_successors_pending_witness : exists i c e,
+  seg_fresh (node_exec 1 [wd_chain] wd_chain) 0 wd_chain wd_x (env0 []) = (OInterrupted i c, [{| ev_key := 2; ev_in := wd_x; ev_abort := false; ev_skip := false |}], e) /\
+  ii_after i = [2] /\ cp_inputs c = [(3, VMap [(2, wd_x)])].
+Proof. exact wd_chain_successor_pending. Qed.
+
 (* non-vacuity of [after_stops_successors_eager_segment]: a Workflow START -> {2, 3} -> 4 -> END with
    interrupt-after {2}: node 2 is collected while node 3 is still running *)
 Example after_stops_successors_eager_segment_witness : exists s c rest sched',
@@ -338,3 +363,6 @@ Print Assumptions nested_info_faithful_node.
 Print Assumptions nested_info_faithful_witness.
 Print Assumptions resumed_from_paired_honours.
 Print Assumptions paired_descends_to_nested.
+Print Assumptions after_successors_pending.
+Print Assumptions after_successors_pending_eager.
+Print Assumptions after_successors_pending_witness.
